@@ -278,7 +278,7 @@ func genWorld(rng *rand.Rand, n int, emit func(string)) {
 		case 0:
 			// the process dies at one of the API calls of the first sync (learned from a dry run of one plain sync); the
 			// model does not predict the state a crash leaves, so these cases are judged by the monitors only
-			_, log := runSyncCase(c)
+			log := dryRunSync(c)
 			if len(log) > 0 {
 				j := rng.Intn(len(log))
 				occ := 0
@@ -291,7 +291,7 @@ func genWorld(rng *rand.Rand, n int, emit func(string)) {
 			}
 		case 1:
 			// one or two failing calls in the first sync
-			_, log := runSyncCase(c)
+			log := dryRunSync(c)
 			for k := 0; k < 1+rng.Intn(2) && len(log) > 0; k++ {
 				j := rng.Intn(len(log))
 				occ := 0
